@@ -77,6 +77,8 @@ def check(items, data, events=None, escaped=None):
                 for st in states:
                     st.mstart = st.pos
                     st.after = {}
+                # where (by every candidate) the last message root was announced: a root announced when no byte is left
+                stats["last_root_at_end"] = all(st.pos >= len(data) for st in states)
             i += 1
             continue
         if it[0] == "P":
